@@ -206,6 +206,11 @@ def gen_jobs(logics, examples, tier, seed):
         for _ in range(n_rand):
             prems, concl = rand_arg(rng, L['modal'], L['quantified'])
             jobs.append(dict(logic=n, premises=prems, conclusion=concl, kind='random'))
+        if L['modal']:
+            # frame-rule steps with several worlds pending at once (two dead-end worlds, a world reached twice,
+            # possibility and its witness at one world): each access node must be justified on its own
+            for a in ('b:MLa:MLNa', 'c:MLa:MNa', 'c:KMLaMLNa', 'b:a:Ma:Lb', 'b:MMa:MLNa:La', 'Mb:LMb:MMa'):
+                jobs.append(dict(logic=n, argstr=a, kind='frames'))
         for e in rng.sample(list(examples), n_opt):
             for go, ro in itertools.product([True, False], repeat=2):
                 if go and ro:
